@@ -1,5 +1,6 @@
 import Failsafe.Conc.TraceTimeout
 import Failsafe.Conc.TraceFuture
+import Failsafe.Conc.TraceHedge
 /-!
 Line protocol of the `trace` slice (TRACE tie): each line is one real concurrent run; the observation is the totally ordered
 list of events user code saw. The verdict is `Failsafe.Conc.Trace.accepts` on the interleaving model — exact by `Trace.accepts_iff`:
@@ -7,6 +8,7 @@ a trace is rejected iff **no** interleaving of the model shows it.
 
   trace timeout <placement> <fn kind> <dur> => see:<c>:<early> fnret:<early> listener:<early> ret:<inner|exceeded>:<early> final:<k>:<c>
   trace future <entry point> <readers> <cancel?> => isdone:<b> closed:<b> listener got cancel …
+  trace hedge <maxHedges> <conds> <attempt µs:c>… => hedge enter:<k> finish:<k>:<c> ret:<k> see:<k>:<b>
 -/
 namespace Driver.Trace
 open Failsafe.Conc
@@ -40,6 +42,13 @@ def check (st : St) (toks : List String) (obs : Option String) : St × Option St
     let before := evs.takeWhile (· != .listener)
     ({ st with traces := st.traces + 1, events := st.events + evs.length, maxStates := max st.maxStates n,
                nontrivial := st.nontrivial + (if before.length > 0 && before.length < evs.length then 1 else 0) }, v)
+  | "hedge" :: mh :: _, some o =>
+    let raw := (o.trim.splitOn " ").filter (· ≠ "")
+    let evs := raw.filterMap TraceHedge.parseEv
+    if evs.length != raw.length then (st, some "bad-event") else
+    let (v, n) := verdict (Trace.accepts (TraceHedge.osys (mh.toNat?.getD 0 + 1)) 40 evs)
+    ({ st with traces := st.traces + 1, events := st.events + evs.length, maxStates := max st.maxStates n,
+               nontrivial := st.nontrivial + (if evs.any (fun e => match e with | .hedge => true | _ => false) then 1 else 0) }, v)
   | _, none => (st, none)
   | _, _ => (st, some "bad-op")
 
